@@ -274,4 +274,13 @@ example : decodeMany Opts.strict 10
     ([.control ⟨12, 1, 2, 3, 4, []⟩, .data ⟨false, some 9, 7, 9, none, none, [0xAA]⟩,
       .control ⟨20, 1, 2, 3, 4, [.messageType .hello]⟩], []) := by decide
 
+/-- … in particular in front of `n` zero octets for any `n` — 2^32 and more included: this is the model's side of the
+    `sfxbig` cases, where the implementation is run on a lazily mapped input of that size and the driver answers from the
+    image alone (it never builds the list) -/
+theorem in_front_of_zeros (o : Opts) (b : Bytes) (m : Msg) (r : Bytes) (L : Nat) (n : Nat)
+    (h : (decode o : M Bytes (List DErr) Msg) b = .ok m r) (hd : m.declared = some L) :
+    (decode o : M Bytes (List DErr) Msg) (b.take L ++ List.replicate n 0) = .ok m (List.replicate n 0) ∧
+    (List.replicate n (0 : UInt8)).length = n :=
+  ⟨suffix_irrelevant o b m r L h hd _, List.length_replicate⟩
+
 end Rl2tp.C08
